@@ -221,6 +221,96 @@ def inline_vars(tree):
     return tree
 
 
+class _Synonyms(ast.NodeTransformer):
+    """library synonyms, the *other* way round than vk/canon.py canonicalises them"""
+
+    def visit_Call(self, n):
+        self.generic_visit(n)
+        f = ast.unparse(n.func)
+        kw = {k.arg for k in n.keywords}
+        if isinstance(n.func, ast.Attribute) and n.func.attr == "reshape" and len(n.args) == 1 and kw <= {"order"} \
+                and not (isinstance(n.func.value, ast.Name) and n.func.value.id in ("np", "numpy")):
+            return ast.Call(func=ast.Attribute(value=ast.Name(id="np", ctx=ast.Load()), attr="reshape", ctx=ast.Load()),
+                            args=[n.func.value, n.args[0]], keywords=n.keywords)
+        if f == "np.fromfile" and len(n.args) == 3 and not n.keywords:
+            return ast.Call(func=n.func, args=[n.args[0]], keywords=[ast.keyword(arg="dtype", value=n.args[1]),
+                                                                      ast.keyword(arg="count", value=n.args[2])])
+        if isinstance(n.func, ast.Attribute) and n.func.attr == "seek" and len(n.args) == 2 and \
+                isinstance(n.args[1], ast.Constant) and n.args[1].value in (0, 1, 2):
+            nm = {0: "SEEK_SET", 1: "SEEK_CUR", 2: "SEEK_END"}[n.args[1].value]
+            n.args[1] = ast.Attribute(value=ast.Name(id="os", ctx=ast.Load()), attr=nm, ctx=ast.Load())
+            return n
+        if isinstance(n.func, ast.Attribute) and n.func.attr == "decode" and len(n.args) == 1 and not n.keywords:
+            return ast.Call(func=ast.Name(id="str", ctx=ast.Load()), args=[n.func.value, n.args[0]], keywords=[])
+        if isinstance(n.func, ast.Attribute) and n.func.attr in ("__next__", "__iter__") and not n.args:
+            return ast.Call(func=ast.Name(id=n.func.attr.strip("_"), ctx=ast.Load()), args=[n.func.value], keywords=[])
+        if f == "np.where" and len(n.args) == 1 and not n.keywords:
+            return ast.Call(func=ast.Attribute(value=ast.Name(id="np", ctx=ast.Load()), attr="nonzero", ctx=ast.Load()),
+                            args=n.args, keywords=[])
+        if isinstance(n.func, ast.Attribute) and n.func.attr in ("any", "all") and not n.args and not n.keywords and \
+                isinstance(n.func.value, (ast.Call, ast.Compare)):
+            return ast.Call(func=ast.Attribute(value=ast.Name(id="np", ctx=ast.Load()), attr=n.func.attr, ctx=ast.Load()),
+                            args=[n.func.value], keywords=[])
+        if f in ("np.min", "np.max") and len(n.args) == 1 and isinstance(n.args[0], (ast.Name, ast.Subscript, ast.Attribute)) \
+                and kw <= {"axis"}:
+            return ast.Call(func=ast.Attribute(value=n.args[0], attr=f[3:], ctx=ast.Load()), args=[], keywords=n.keywords)
+        return n
+
+
+def synonyms(tree):
+    needs_os = any(isinstance(n, ast.Call) and isinstance(n.func, ast.Attribute) and n.func.attr == "seek" and
+                   len(n.args) == 2 for n in ast.walk(tree))
+    tree = _Synonyms().visit(tree)
+    has_os = any(isinstance(n, ast.Import) and any(a.name == "os" and a.asname is None for a in n.names)
+                 for n in tree.body)
+    if needs_os and not has_os:
+        k = 1 if tree.body and isinstance(tree.body[0], ast.Expr) and isinstance(tree.body[0].value, ast.Constant) else 0
+        tree.body.insert(k, ast.Import(names=[ast.alias(name="os")]))
+    return tree
+
+
+def guard_clauses(tree):
+    """the last statement of a loop body `if C: BODY` (no else, BODY longer than one statement)  ->
+    `if not C: continue` followed by BODY"""
+    for loop in [n for n in ast.walk(tree) if isinstance(n, (ast.For, ast.While))]:
+        st = loop.body[-1]
+        if isinstance(st, ast.If) and not st.orelse and len(st.body) >= 2 and \
+                not any(isinstance(x, (ast.Break,)) for x in ast.walk(st)):
+            guard = ast.If(test=ast.UnaryOp(op=ast.Not(), operand=st.test), body=[ast.Continue()], orelse=[])
+            loop.body[-1:] = [guard] + st.body
+    return tree
+
+
+class _Formats(ast.NodeTransformer):
+    """f-strings without conversions  ->  str.format with positional fields"""
+
+    def visit_JoinedStr(self, n):
+        for v in n.values:
+            if isinstance(v, ast.FormattedValue):
+                v.value = self.visit(v.value)      # not the format_spec (itself a JoinedStr)
+        fmt, args = "", []
+        for v in n.values:
+            if isinstance(v, ast.Constant):
+                fmt += str(v.value).replace("{", "{{").replace("}", "}}")
+            elif isinstance(v, ast.FormattedValue) and v.conversion == -1:
+                spec = ""
+                if v.format_spec is not None:
+                    if not all(isinstance(x, ast.Constant) for x in v.format_spec.values):
+                        return n
+                    spec = ":" + "".join(str(x.value) for x in v.format_spec.values)
+                fmt += "{" + spec + "}"
+                args.append(v.value)
+            else:
+                return n
+        if not args:
+            return n
+        return ast.Call(func=ast.Attribute(value=ast.Constant(value=fmt), attr="format", ctx=ast.Load()), args=args, keywords=[])
+
+
+def formats(tree):
+    return _Formats().visit(tree)
+
+
 def build(kind, dst):
     shutil.copytree("/repo/amr_kitchen", os.path.join(dst, "amr_kitchen"), ignore=shutil.ignore_patterns("__pycache__"))
     for dp, dn, fn in os.walk(os.path.join(dst, "amr_kitchen")):
@@ -241,6 +331,12 @@ def build(kind, dst):
                 tree = flatten_else(tree)
             elif kind == "inlinevar":
                 tree = inline_vars(tree)
+            elif kind == "synonyms":
+                tree = synonyms(tree)
+            elif kind == "guards":
+                tree = guard_clauses(tree)
+            elif kind == "formats":
+                tree = formats(tree)
             ast.fix_missing_locations(tree)
             src = ast.unparse(tree)
             compile(src, p, "exec")
@@ -277,6 +373,6 @@ if __name__ == "__main__":
     if "-k" in sys.argv:
         props = [sys.argv[sys.argv.index("-k") + 1]]
         args = [a for a in args if a not in props]
-    kinds = args or ["unparse", "logging", "rename", "extractvar", "swap", "flattenelse", "inlinevar"]
+    kinds = args or ["unparse", "logging", "rename", "extractvar", "swap", "flattenelse", "inlinevar", "synonyms", "guards", "formats"]
     tot = sum(run(k, props) for k in kinds)
     sys.exit(1 if tot else 0)
